@@ -44,8 +44,10 @@ _ZERO = {"k": "Int", "v": 0}
 
 
 def _conv_signed(e):
-    """Is e a non-constant signed integer converted implicitly to an unsigned type?"""
-    if e is None or e.get("k") != "ICast":
+    """Is e a non-constant signed integer converted (implicitly, or by an explicit cast) to an unsigned type?"""
+    while e is not None and e.get("k") == "Paren":
+        e = e["a"][0]
+    if e is None or e.get("k") not in ("ICast", "Cast"):
         return False
     t = e.get("t") or {}
     if t.get("k") != "int" or t.get("signed") is not False:
@@ -56,7 +58,7 @@ def _conv_signed(e):
         return False
     # a chain of conversions that starts from a signed integer of the same or smaller size
     x = e
-    while x.get("k") == "ICast":
+    while x.get("k") in ("ICast", "Cast", "Paren"):
         x = x["a"][0]
         xt = x.get("t") or {}
         if xt.get("k") == "int" and xt.get("signed") is False and xt.get("bits", 0) < t.get("bits", 64):
@@ -102,6 +104,23 @@ class Walker:
             if b[0]:
                 return {pp(e): 1}, 0
             return {k2: c * b[1] for k2, c in a[0].items() if c * b[1]}, a[1] * b[1]
+        if k == "Bin" and e["op"] in ("%", "/") and (cval(sk(e["a"][1])) or 0) > 0 and st is not None:
+            # x % c lies in 0..c-1 and x / c in 0..x when x is known not to be negative (or is unsigned)
+            a = self._lin(sk(e["a"][0]), st)
+            c = cval(sk(e["a"][1]))
+            key = pp(e) if a is None else "(%s)%s%d" % (L.show(a), e["op"], c)
+            at = (sk(e["a"][0]).get("t") or {})
+            nonneg = (at.get("k") == "int" and at.get("signed") is False) or (a is not None and self.implied(st, a))
+            if nonneg:
+                for cn in ((((key, 1),), 0),) + (((((key, -1),), -(c - 1)),) if e["op"] == "%" else ()):
+                    if cn not in st.cons:
+                        st.cons.append(cn)
+                if e["op"] == "/" and a is not None:
+                    d_ = L.sub(a, ({key: 1}, 0))
+                    atn, bd = _norm(d_)
+                    if atn and (atn, bd) not in st.cons:
+                        st.cons.append((atn, bd))
+            return {key: 1}, 0
         if k == "Bin" and e["op"] in ASSIGN_OPS:
             return self._lin(sk(e["a"][0]), st)
         if k == "Un" and e["op"] in ("post++", "post--"):
